@@ -250,13 +250,17 @@ SdsInputs == {[sk |-> ks, n |-> n] : ks \in {{k} : k \in SdsKinds} \cup {SdsKind
 SymOrder == <<"strArg", "listArg", "listDef", "shellStr", "envStr", "fileStr", "progSym", "timeoutInt", "cleanupArg",
               "exitCode", "numLines", "lineNum", "lineNums", "equalsStr", "matchesRx", "pathExists", "textMatcher",
               "textTransformer", "intMatcher", "lineMatcher",
-              "textMatcherAnd", "intMatcherOr", "lineMatcherAnd", "textTransformerSeq">>
+              "textMatcherAnd", "intMatcherOr", "lineMatcherAnd", "textTransformerSeq",
+              "defStr", "hereDoc", "replaceStr", "runArg", "fileMatcher", "filesMatcher">>
 \* (the last four: the case's matcher / transformer as an OPERAND of && / || / | in the suite's instruction)
 \* ("listDef": a LIST defined by an instruction of the suite from a string symbol of the case, then used)
-AllSymLog == {"strArg", "listArg", "listDef", "shellStr", "envStr", "fileStr", "progSym", "cleanupArg"}
+AllSymLog == {"strArg", "listArg", "listDef", "shellStr", "envStr", "fileStr", "progSym", "cleanupArg",
+              "defStr", "hereDoc", "replaceStr", "runArg"}
+\* ("defStr": a STRING defined by the suite from the case's; "hereDoc": a file written from a here-document that
+\*  refers to it; "replaceStr": it is the replacement of a `replace`; "runArg": an argument of `run`)
 AllSymAssert == {"exitCode", "numLines", "lineNum", "lineNums", "equalsStr", "matchesRx", "pathExists", "textMatcher",
                  "textTransformer", "intMatcher", "lineMatcher",
-                 "textMatcherAnd", "intMatcherOr", "lineMatcherAnd", "textTransformerSeq"}
+                 "textMatcherAnd", "intMatcherOr", "lineMatcherAnd", "textTransformerSeq", "fileMatcher", "filesMatcher"}
 AllSymKinds == {SymOrder[j] : j \in DOMAIN SymOrder}
 \* "vbad": values of which the INTEGER and the REGEX are ill-formed (the others are values like any other): a case
 \* that gives them to an instruction of the suite that needs an INTEGER / a REGEX ends in VALIDATION_ERROR before
